@@ -96,6 +96,7 @@ func biasFor(prop string) map[string]int {
 		b["CreateBid"] = 18
 	case "C08":
 		b["cb.selfbid"] = 6
+		b["grp.signed"] = 30
 		b["sa.resign"] = 45
 		b["busy"] = 30
 		b["cp.any"] = 15
